@@ -54,6 +54,15 @@ def judge(prog, run, r):
     lcs = sched.lifecycles(ev, ret)
     dd = set(run.kids)
     anyexc = bool(run.raised) or run.exc is not None
+    last_enter = {}
+    for e in run.ev:
+        if e[1] == "E":
+            last_enter[e[2]] = e[0]
+
+    def returned_itself(name):
+        # 'its own code returned' counts only if it happened in the doer's last lifecycle (a pool doer may have
+        # finished a first lifecycle under one scheduler and been force-closed in a later one)
+        return name in run.own_return and run.own_return_seq.get(name, 10 ** 9) >= last_enter.get(name, -1)
     for name, lst in lcs.items():
         for k, s in enumerate(lst):
             last = k == len(lst) - 1
@@ -72,7 +81,7 @@ def judge(prog, run, r):
                 continue
             term = s[-2]
             if name in dd:
-                if name in run.own_return:
+                if returned_itself(name):
                     want = "C"
                 elif term == "A" and anyexc:
                     want = "A"
@@ -80,7 +89,7 @@ def judge(prog, run, r):
                     want = "Z"
             elif name in run.raised and run.raised[name] != "kbi":
                 want = "A"
-            elif name in run.own_return:
+            elif returned_itself(name):
                 want = "C"
             else:
                 want = "Z"
